@@ -73,7 +73,7 @@ def run(ctx):
     )
     ctx.exhaustive = True
     real_gamma_pdf = st.gamma.pdf
-    real = (conc.beta, conc.bernoulli, conc.gamma)
+    real = (conc.beta, getattr(conc, "bernoulli", None), conc.gamma)
     items, meta = [], []
     try:
         log = []
@@ -81,7 +81,29 @@ def run(ctx):
         conc.beta = Recorder("beta", log, values)
         conc.bernoulli = Recorder("bernoulli", log, values)
         conc.gamma = Recorder("gamma", log, values)
-        sentinel_rng = object()
+        class _Probe:
+            # a uniform variate compared with p is a Bernoulli(p) draw, however the code realises it
+            def __init__(self, rng):
+                self.rng = rng
+
+            def __lt__(self, p):
+                log.append(("bernoulli", (float(p),), {}, self.rng))
+                return bool(values["bernoulli"])
+
+            def __le__(self, p):
+                return self.__lt__(p)
+
+            def __gt__(self, p):  # u > p  <=>  not Bernoulli(p)
+                return not self.__lt__(p)
+
+            def __ge__(self, p):
+                return not self.__lt__(p)
+
+        class _ProbeRng:
+            def random(self):
+                return _Probe(self)
+
+        sentinel_rng = _ProbeRng()
 
         # ---------------- (1) parameter grid
         As = [Fraction(1, 100), Fraction(1), Fraction(5, 2)]
@@ -229,7 +251,12 @@ def run(ctx):
                     items.append("chk_kn %s %d %d" % (c03.coq_forest(spec), K, n))
                     meta.append(replay)
     finally:
-        conc.beta, conc.bernoulli, conc.gamma = real
+        conc.beta, conc.gamma = real[0], real[2]
+        if real[1] is None:
+            if hasattr(conc, "bernoulli"):
+                del conc.bernoulli
+        else:
+            conc.bernoulli = real[1]
 
     # keep the Coq file bounded in the quick tier (seeded subsample of the grid items, all tree items)
     if ctx.quick and len(items) > 900:
